@@ -38,7 +38,7 @@ ASSUMPTIONS = [
 TIMEOUT = {"quick": 60, "thorough": 240}
 DEADLINE = {"quick": 75, "thorough": 1100}
 MIN_DECIDING = {"quick": 25, "thorough": 300}
-NCASES = {"quick": 80, "thorough": 2400}
+NCASES = {"quick": 64, "thorough": 2400}
 
 KEY_P21 = "sample-time-limit-taken-over-non-integer-n"
 KEY_CONST = "bif-variable-name-becomes-symbolic-constant"
@@ -96,16 +96,26 @@ def generate(seed, tier):
             profile = "constname"
         elif i % 45 == 17:
             profile = "keyword"
-        spec, feats = B.gen_spec(rng, tier, profile)
+        fixed = B.FIXED[i] if i < len(B.FIXED) else None
+        if fixed:
+            spec, feats = fixed[1], list(fixed[3])
+        else:
+            spec, feats = B.gen_spec(rng, tier, profile)
         tol = rng.choice(["0.001", "0.001", "0.001", "0.01", "0.0001", "0.000001"])
         texts = []
         for m in ("table", "entries", "default", "mixed"):
             t, doc = B.render(spec, m, rng)
             texts.append({"mode": m, "text": t, "modes": [p["mode"] for p in doc["probs"]]})
-        queries = B.gen_queries(rng, spec, tier, count=2 if (tier == "quick" and len(spec["vars"]) >= 5) else 3)
-        negs = B.mutations(spec, rng, tol, count=6 if tier == "quick" else 8)
-        cases.append({"id": f"bn-{cs}", "spec": spec, "tol": tol, "texts": texts, "queries": queries,
-                      "negatives": negs, "features": feats, "bif_to_prob": i % 3 == 0, "print_benchmark": i % 8 == 1})
+        if tier == "quick":
+            nq = 2 if len(spec["vars"]) >= 5 else 3
+        else:
+            nq = 4
+        queries = B.gen_queries(rng, spec, tier, count=nq)
+        if fixed:
+            queries = [dict(q) for q in fixed[2]]
+        negs = B.mutations(spec, rng, tol, count=6 if tier == "quick" else 10)
+        cases.append({"id": fixed[0] if fixed else f"bn-{cs}", "spec": spec, "tol": tol, "texts": texts, "queries": queries,
+                      "negatives": negs, "features": feats, "bif_to_prob": i % 3 == 0, "print_benchmark": i % 4 == 1})
     return cases
 
 
@@ -387,6 +397,34 @@ def _run(case, tier, spec, res, tmp):
         try:
             out = P.run_cli([paths[good[0]]])
             res["features"].append("print_benchmark")
+            # the "Parsed program" printed by PrintBenchmarkAction is Polar's reading of the generated program
+            # (its program variables are listed in declaration order = order of network.variables)
+            code2 = printed_program_to_prob(out)
+            if code2 is not None and code0 is not None:
+                r2 = None
+                try:
+                    r2 = run_own_engine(code2, steps=1)
+                except Exception as e:
+                    res["refusals"].append(f"oracle:{type(e).__name__}:printed-program")
+                if r2 is not None:
+                    eng2, d2 = r2
+                    prog_names = [mapping0[n] for n in names]
+                    if all(x in eng2.index for x in prog_names):
+                        law = law_of(eng2, d2[1], prog_names)
+                        res["comparisons"] += len(jv)
+                        law_compared += 1
+                        if law != jv:
+                            bad = [(k, law.get(k, 0), jv.get(k, 0)) for k in sorted(set(law) | set(jv), key=str)
+                                   if law.get(k, 0) != jv.get(k, 0)]
+                            k0 = max(bad, key=lambda b: abs(b[1] - b[2]))
+                            fw = _float_remainder_witness(code0)
+                            small = all(abs(b[1] - b[2]) <= Fraction(1, 10 ** 9) for b in bad)
+                            key = KEY_CONST if _const_names(mapping0) else (KEY_FLOAT if (fw and small) else None)
+                            _viol(res, "parsed-program-law-differs-from-joint",
+                                  f"program printed by PrintBenchmarkAction: P{tuple(map(str, k0[0]))} = {k0[1]} after one iteration, "
+                                  f"{k0[2]} in the network ({len(bad)} states differ, total mass {sum(law.values())})"
+                                  + (f"; Polar parsed '{fw}' with probabilities that do not sum to 1" if fw else ""),
+                                  key=key, code=code2[:3000])
         except SystemExit:
             res["refusals"].append("cli:SystemExit")
         except Exception as e:
@@ -594,3 +632,37 @@ def _float_remainder_witness(code):
         return found[0] if found else None
     except Exception:
         return None
+
+
+def printed_program_to_prob(out):
+    """convert the indentation-structured "Parsed program" section printed by PrintBenchmarkAction into .prob text for
+    the oracle's own parser (if / else if / else blocks get explicit `end`s; logical symbols -> && || !)"""
+    lines = out.splitlines()
+    try:
+        i = next(k for k, l in enumerate(lines) if "- Parsed program -" in l) + 2
+    except StopIteration:
+        return None
+    body = []
+    for l in lines[i:]:
+        if "- Transformed program -" in l or l.startswith("---"):
+            break
+        body.append(l)
+    res = []
+    stack = []
+    for l in body:
+        if not l.strip():
+            continue
+        l = l.replace("\x1b[0m", "")
+        ind = len(l) - len(l.lstrip(" "))
+        c = l.strip().replace("∧", "&&").replace("∨", "||").replace("¬", "!")
+        is_else = c.startswith("else")
+        while stack and (stack[-1] > ind or (stack[-1] == ind and not is_else)):
+            res.append(" " * stack.pop() + "end")
+        if c.startswith("else if "):
+            res.append(" " * ind + "elif " + c[len("else if "):])
+        elif c.startswith("if "):
+            res.append(" " * ind + c)
+            stack.append(ind)
+        else:
+            res.append(" " * ind + c)
+    return "\n".join(res) + "\n"
